@@ -1,5 +1,6 @@
 import StepModel.P21.Writer
 import StepModel.P21.ReaderLemmas11
+import StepModel.P21.ReaderLemmas14
 import StepModel.Generated.P21RWGen
 /-! # C01 — exchange files survive read-then-write: property theorems
 
@@ -1115,6 +1116,113 @@ theorem C01_file_write_read_partial {F} (ops : FloatOps F) (lex : LexCfg) (cfg :
 
 /-! ### the comment defects and their repair on the minimal inputs (model level; the check replays them on the code) -/
 
+/-! ### entities with redeclared (redefining) attributes at file level -/
+
+/-- no covered token starts with `)` -/
+theorem covered_head_ne41 {F} (env : Env F) (p : Param F) (h : Covered env p) : ∀ c u, p.tok = c :: u → c ≠ 41 := by
+  intro c u hcu
+  cases h with
+  | integer a hty hder hred tok htok hlo hhi before after hb ha =>
+    obtain ⟨c', u', h', _, _, h41, _⟩ := isInteger_head47 tok htok
+    simp only [] at hcu; rw [h'] at hcu; cases hcu; exact h41
+  | real a hty hder hred tok dec v htok hden hv hnn hbuf before after hbf ha =>
+    obtain ⟨c', u', h', _, _, _, h41, _, _⟩ := number_head tok (Or.inl htok)
+    simp only [] at hcu; rw [h'] at hcu; cases hcu; exact h41
+  | number a hty hder hred tok dec v htok hden hv hnn before after hbf ha =>
+    obtain ⟨c', u', h', _, _, _, h41, _, _⟩ := number_head tok htok
+    simp only [] at hcu; rw [h'] at hcu; cases hcu; exact h41
+  | aggrInt a hty hder hred es inner hok hin before after hb ha =>
+    simp only [] at hcu
+    cases es <;> (simp only [aggrText, List.cons.injEq] at hcu; obtain ⟨rfl, _⟩ := hcu; decide)
+  | aggr a ety hty hder hred es inner hok hin before after hb ha =>
+    simp only [] at hcu
+    cases es <;> (simp only [aggrTextG, List.cons.injEq] at hcu; obtain ⟨rfl, _⟩ := hcu; decide)
+  | selTyped a n hty hder hred sd hsd m n0 ns hn0 hns hfind tok av hleaf sA sB sC hsA hsB hsC before after hb ha =>
+    simp only [selText, List.cons.injEq] at hcu
+    obtain ⟨rfl, _⟩ := hcu
+    intro h; rw [h] at hn0; exact absurd hn0 (by decide)
+  | _ => simp only [List.cons.injEq] at hcu; obtain ⟨rfl, _⟩ := hcu; decide
+
+/-- a record over the covered kinds for an entity whose attribute list holds redeclared (redefining) attributes anywhere:
+    the parameters are those of the other attributes, in order -/
+def RecCoveredR {F} (env : Env F) (rg : Rec F × List Byte) : Prop :=
+  rg.1.Lex ∧ Seps rg.2 ∧ ∃ e, env.dict.entity? rg.1.name = some e ∧ e.abstract = false ∧
+    AlignedA e.attrs (rg.1.ps.map (·.a)) ∧ ∀ q ∈ rg.1.ps, Covered env q
+
+/-- **read (render p ℓ) = p at file level for entities with redeclared attributes** (`_partial`): `C01_read_file_partial`
+    with `e.attrs = ps.map a` weakened to "`e.attrs` is the parameters' attributes with redefining attributes put in
+    anywhere" - `SDAI_Application_instance::STEPread` steps over a redefining attribute without consuming a parameter
+    (technical-corrigendum encoding: the redeclared attribute has no value of its own), and the instance stores values for
+    the other attributes only.  Source whose look-ahead after the closing parenthesis examines every remaining attribute
+    (tie in Props/C03). -/
+theorem C01_read_file_redeclared_partial {F} (ops : FloatOps F) (lex : LexCfg) (cfg : RWCfg) (d : Dict) (strict : Bool)
+    (hskip : cfg.skipInstanceSkipsComments = true) (hcri : lex.criSkipsComments = true) (hagg : cfg.aggrSkipsComments = true)
+    (hmc : cfg.missingCheckEverySecond = false)
+    (rs : List (Rec F × List Byte)) (g0 sp gE after : List Byte) (hg0 : Seps g0) (hsp : sp.all isSpace = true) (hgE : Seps gE)
+    (hnd : (rs.map (·.1.id)).Nodup)
+    (hrec : ∀ rg ∈ rs, RecCoveredR { ops := ops, lex := lex, cfg := cfg, dict := d,
+                                     lookup := Mgr.lookup d ({ insts := rs.map (mkInst d) } : Mgr F) } rg) :
+    ∃ res, readDataSection ops lex cfg d strict false
+        (g0 ++ renderRecs rs (endsec sp (gE ++ (endIso ++ 59 :: after)))) = .ok res ∧
+      res.mgr.insts = rs.map finInst ∧ res.sev = .null ∧ exitStatus res.sev = 0 ∧
+      res.created = rs.length ∧ res.notCreated = 0 ∧ res.valid = rs.length ∧ res.invalid = 0 := by
+  let xs : List (Step F) := rs.map (fun rg => { r := rg.1, g := rg.2, out := finInst rg, sev := .null })
+  have hrg : xs.map Step.rg = rs := by simp [xs, List.map_map, Function.comp_def, Step.rg]
+  have hmk : xs.map (fun x => mkInst d x.rg) = rs.map (mkInst d) := by simp [xs, List.map_map, Function.comp_def, Step.rg]
+  obtain ⟨res, hr, hm, hsev, hc, hnc, hv, hinv, _⟩ :=
+    readDataSection_steps ops lex cfg hskip d strict sp _ hsp (tailOK_endIso gE hgE after) xs g0 hg0
+      (by
+        intro x hx
+        obtain ⟨rg, hrgm, rfl⟩ := List.mem_map.mp hx
+        obtain ⟨hl, hg, e, he, habs, _, hcov⟩ := hrec rg hrgm
+        exact ⟨hl, hg, fun q hq => covered_scan _ q (hcov q hq), e, he, habs⟩)
+      (by simpa [xs, List.map_map, Function.comp_def] using hnd)
+      (by
+        intro x hx
+        obtain ⟨rg, hrgm, rfl⟩ := List.mem_map.mp hx
+        obtain ⟨hl, hg, e, he, habs, hal, hcov⟩ := hrec rg hrgm
+        have hent' : d.entity? rg.1.name = some e := he
+        refine ⟨hg, rfl, by simp [keyOf, finInst, mkInst, Step.rg], ?_⟩
+        intro st l rest hfind hlk hs
+        rw [hmk] at hlk
+        have hrd : ∀ L, instSTEPread { ops := ops, lex := lex, cfg := cfg, dict := d, lookup := Mgr.lookup d st.mgr } strict
+            e.attrs (G L (40 :: (renderParams rg.1.ps ++ rg.1.t4 rest)) false) =
+              .ok ⟨.null, rg.1.ps.map (·.v), G ((40 :: renderParams rg.1.ps).reverse ++ L) (rg.1.t4 rest) false, .null⟩ := by
+          intro L
+          obtain ⟨sk', hsk, h⟩ := instSTEPread_aligned { ops := ops, lex := lex, cfg := cfg, dict := d, lookup := Mgr.lookup d st.mgr }
+            strict hmc e.attrs rg.1.ps hal hl.pne
+            (fun q hq => covered_rd _ strict hcri hagg q (by rw [hlk]; exact hcov q hq))
+            (fun q hq => covered_head_ne41 _ q (hcov q hq)) L false (rg.1.t4 rest)
+          have : sk' = false := by rcases hsk with h | h <;> exact h
+          subst this
+          exact h
+        obtain ⟨l', h⟩ := readInstance_semi ops lex cfg d strict st rg.1 hl l rest false hs (mkInst d (rg.1, rg.2)) hfind rfl rfl
+          { name := rg.1.name, vals := match d.entity? rg.1.name with | some e => defaults e.attrs | none => [] } rfl e hent'
+          .null (rg.1.ps.map (·.v)) false .null hrd (by
+            have : decide (Sev.null.toInt ≤ Sev.warning.toInt) = false := by decide
+            rw [this, Bool.and_false])
+        refine ⟨l', ?_⟩
+        rw [h]
+        simp [finInst, mkInst, stateOf])
+  rw [hrg] at hr
+  have hall : errAfter .null xs = .null := by
+    have : ∀ (ys : List (Step F)), (∀ y ∈ ys, y.sev = .null) → errAfter .null ys = .null := by
+      intro ys
+      induction ys with
+      | nil => intro _; rfl
+      | cons y t ih =>
+        intro h
+        have hy := h y (by simp)
+        simp only [errAfter, List.foldl_cons, hy] at ih ⊢
+        exact ih (fun z hz => h z (by simp [hz]))
+    exact this xs (by intro y hy; obtain ⟨rg, _, rfl⟩ := List.mem_map.mp hy; rfl)
+  refine ⟨res, hr, ?_, ?_, ?_, ?_, hnc, ?_, hinv⟩
+  · rw [hm]; simp [xs, List.map_map, Function.comp_def]
+  · rw [hsev, hall]
+  · rw [hsev, hall]; rfl
+  · rw [hc]; simp [xs]
+  · rw [hv]; simp [xs]
+
 /-! ### the two halves composed, and their hypotheses on a concrete file -/
 
 /-- **the token the writer emits for a stored value denotes that value** (`storable_covered`, exported): for every stored
@@ -1222,6 +1330,29 @@ theorem C01_file_hypotheses_witness :
     · refine ⟨by decide, by decide, rfl, { name := "A", vals := wRecA.1.ps.map (·.v) },
         { name := "A", attrs := [wAttrI], ancestors := ["A"] }, rfl, by decide, rfl, ⟨65, [], by decide, by decide, by decide, by decide⟩, ?_⟩
       exact StorableRec.one wAttrI _ (Storable.int wAttrI rfl rfl rfl _ (by decide) (by decide))
+
+/-- the hypotheses of `C01_read_file_redeclared_partial` are satisfiable: `#1=C(5,$);` for an entity whose attribute list is
+    (i INTEGER, a redefining attribute, s OPTIONAL STRING) -/
+def wAttrRed : AttrD := { name := "i2", ty := .one .integer, optional := false, redefining := true }
+def wDictR : Dict :=
+  { entities := [{ name := "C", attrs := [wAttrI, wAttrRed, wAttrS], ancestors := ["C"] }], selects := [], complexSets := [] }
+def wRecC : Rec Nat × List Byte :=
+  ({ ds := [49], s1 := [], s2 := [], n0 := 67, ns := [], s3 := [],
+     ps := [{ a := wAttrI, v := .one (.atom (.int (denoteInteger [53]))), tok := [53], before := [], after := [] },
+            { a := wAttrS, v := nullOf wAttrS, tok := [36], before := [], after := [] }], s4 := [] }, [10])
+
+theorem C01_redeclared_hypotheses_witness (lk : Lookup) :
+    RecCoveredR ({ ops := dblOps, lex := Generated.rwLexCfg, cfg := Generated.rwCfg, dict := wDictR, lookup := lk } : Env Nat) wRecC := by
+  have sepsNil : Seps ([] : List Byte) := Seps.blanks [] (by decide)
+  refine ⟨⟨by decide, by decide, by decide, sepsNil, sepsNil, sepsNil, sepsNil, by decide, by decide, by decide⟩,
+    Seps.blanks [10] (by decide), { name := "C", attrs := [wAttrI, wAttrRed, wAttrS], ancestors := ["C"] },
+    (by show wDictR.entity? wRecC.1.name = _; decide), rfl, ?_, ?_⟩
+  · exact AlignedA.keep wAttrI _ _ rfl (AlignedA.red wAttrRed _ _ rfl (AlignedA.keep wAttrS _ _ rfl AlignedA.nil))
+  · intro q hq
+    simp only [wRecC, List.mem_cons, List.not_mem_nil, or_false] at hq
+    rcases hq with rfl | rfl
+    · exact Covered.integer wAttrI rfl rfl rfl [53] (by decide) (by decide) (by decide) [] [] sepsNil sepsNil
+    · exact Covered.dollar wAttrS rfl rfl rfl [] [] sepsNil sepsNil
 
 /-- … and the composed theorem instantiated on it: the file is read, written, read again to the same two instances -/
 theorem C01_read_write_read_witness :
